@@ -451,8 +451,9 @@ func (p *Proxy) handle(ctx *Context, conn net.Conn, brw *bufio.ReadWriter) error
 	session := ctx.Session()
 	ctx, err = withSession(session)
 	if err != nil {
+		// The request has been consumed and cannot be answered: the connection must not be reused.
 		log.Errorf("martian: failed to build new context: %v", err)
-		return err
+		return errClose
 	}
 
 	link(req, ctx)
@@ -538,7 +539,9 @@ func (p *Proxy) handle(ctx *Context, conn net.Conn, brw *bufio.ReadWriter) error
 				if rangeStart := proxyutil.GetRangeStart(res); rangeStart > -1 {
 					dump, err := httputil.DumpResponse(res, false)
 					if err != nil {
-						return err
+						// No response has been written for this request: the connection must not be reused.
+						log.Errorf("martian: failed to dump response for traffic shaping: %v", err)
+						return errClose
 					}
 					ptsconn.Context = &trafficshape.Context{
 						Shaping:            true,
